@@ -9,7 +9,7 @@ from . import differs, model_inputs, value_differs
 
 class K:
     def __init__(self, name, fn, oracle, kmin=0, floor=None, null_aware=True, two=False, clamp_w=True,
-                 floor_on=None, native=None, pick=None, min_w=1):
+                 floor_on=None, native=None, pick=None, min_w=1, guard_on=None):
         self.name, self.fn, self.oracle, self.kmin = name, fn, oracle, kmin
         self.floor = floor                    # value required when the spread is (numerically) zero: 0, "null", None
         self.null_aware, self.two = null_aware, two
@@ -17,6 +17,7 @@ class K:
         self.native = native or name          # name understood by /verif/replay
         self.pick = pick                      # component of a tuple output
         self.min_w = min_w
+        self.guard_on = guard_on              # claims are made only where this quantity is > 0 (e.g. regressor variance)
 
 
 def _var_of_x(xs, ys=None):
@@ -47,6 +48,72 @@ for pre, trait, na in (("ts_v", RV, True), ("ts_", RF, False)):
     _reg(K(pre + "kurt", f"{trait}::{pre}kurt_to", O.o_kurt, 4, 0, na, floor_on=_var_of_x))
 
 
+# ---- C04: two-series statistics and regressions ------------------------------------------------
+def _var_xy(xs, ys):
+    return [O.pop_var(xs), O.pop_var(ys)]
+
+
+def _var_y(xs, ys):
+    return O.pop_var(ys)
+
+
+RB, RR, RRB = "RollingValidBinary", "RollingValidReg", "RollingValidRegBinary"
+_reg(K("ts_vcov", f"{RB}::ts_vcov_to", lambda xs, ys, **kw: O.o_cov(xs, ys), 2, None, True, two=True))
+_reg(K("ts_vcorr", f"{RB}::ts_vcorr_to", lambda xs, ys, sqrt=None, **kw: O.o_corr(xs, ys, sqrt=sqrt), 2, "null", True, two=True,
+       floor_on=_var_xy))
+
+
+def _trend(f):
+    def orc(ys, **kw):
+        n = len(ys)
+        (alpha, beta), ts = O.trend(ys)
+        return f(alpha, beta, n, ts, ys).f
+    return orc
+
+
+_reg(K("ts_vreg", f"{RR}::ts_vreg_to", _trend(lambda a, b, n, ts, ys: a + b * n), 2))
+_reg(K("ts_vtsf", f"{RR}::ts_vtsf_to", _trend(lambda a, b, n, ts, ys: a + b * (n + 1)), 2))
+_reg(K("ts_vreg_slope", f"{RR}::ts_vreg_slope_to", _trend(lambda a, b, n, ts, ys: b), 2))
+_reg(K("ts_vreg_intercept", f"{RR}::ts_vreg_intercept_to", _trend(lambda a, b, n, ts, ys: a), 2))
+_reg(K("ts_vreg_resid_mean", f"{RR}::ts_vreg_resid_mean_to",
+       _trend(lambda a, b, n, ts, ys: O.qsum([(O.Q(y) - a - b * O.Q(t)) ** 2 for t, y in zip(ts, ys)]) / n), 2))
+
+
+def _regx(f):
+    # regression of the first series (y = self) on the second (x = other)
+    def orc(ys, xs, sqrt=None, **kw):
+        alpha, beta = O.ols(xs, ys)
+        return f(alpha, beta, xs, ys, sqrt).f
+    return orc
+
+
+def _resid(alpha, beta, xs, ys):
+    return [(O.Q(y) - alpha - beta * O.Q(x)).f for x, y in zip(xs, ys)]
+
+
+_reg(K("ts_vregx_alpha", f"{RRB}::ts_vregx_alpha_to", _regx(lambda a, b, xs, ys, sq: a), 2, None, True, two=True, guard_on=_var_y))
+_reg(K("ts_vregx_beta", f"{RRB}::ts_vregx_beta_to", _regx(lambda a, b, xs, ys, sq: b), 2, None, True, two=True, guard_on=_var_y))
+for _i, _nm, _f in ((0, "alpha", lambda a, b, xs, ys, sq: a), (1, "beta", lambda a, b, xs, ys, sq: b),
+                    (2, "sse", lambda a, b, xs, ys, sq: O.qsum([O.Q(r) ** 2 for r in _resid(a, b, xs, ys)]))):
+    _reg(K(f"ts_vregx_all_{_nm}", f"{RRB}::ts_vregx_all", _regx(_f), 2, None, True, two=True, guard_on=_var_y,
+           native=f"ts_vregx_all_{_nm}", pick=_i))
+_reg(K("ts_vregx_resid_mean", f"{RRB}::ts_vregx_resid_mean_to",
+       _regx(lambda a, b, xs, ys, sq: O.mean(_resid(a, b, xs, ys))), 2, None, True, two=True, guard_on=_var_y))
+
+
+def _resid_var(ys, xs):
+    a, b = O.ols(xs, ys)
+    return O.pop_var(_resid(a, b, xs, ys))
+
+
+_reg(K("ts_vregx_resid_std", f"{RRB}::ts_vregx_resid_std_to",
+       _regx(lambda a, b, xs, ys, sq: O.Q(O.o_std(_resid(a, b, xs, ys), sqrt=sq))), 2, 0, True, two=True,
+       guard_on=_var_y, floor_on=_resid_var))
+_reg(K("ts_vregx_resid_skew", f"{RRB}::ts_vregx_resid_skew_to",
+       _regx(lambda a, b, xs, ys, sq: O.Q(O.o_skew(_resid(a, b, xs, ys), sqrt=sq))), 3, 0, True, two=True,
+       guard_on=_var_y, floor_on=_resid_var))
+
+
 def need_count(k, w, mp):
     """effective minimum number of valid observations: max(min(mp or w/2, w), k)"""
     base = (w // 2) if mp is None else mp
@@ -68,7 +135,19 @@ class ShapeResult:
 def check_shape(E, k, L, w, mp, mask, mask2=None, mode="f64", eps=None):
     """All positions of kernel k on one (L, w, mp, mask[, mask2]) shape. Returns ShapeResult."""
     res = ShapeResult()
-    r = E.run_kernel(k.fn, w, mp, mask, mask2, mode)
+    pre = None
+    if k.guard_on is not None:
+        # claims (and execution) are restricted to inputs where the guard quantity (regressor variance) is positive in
+        # every window that holds at least two complete observations
+        def pre(series):
+            both = [a and b for a, b in zip(mask, mask2)]
+            out = []
+            for i in range(L):
+                gx, gy = window_valid(series["self"], both, i, w), window_valid(series["other"], both, i, w)
+                if len(gx) >= 2:
+                    out.append(f_cmp("Gt", k.guard_on(gx, gy).f, VF.const(0)))
+            return out
+    r = E.run_kernel(k.fn, w, mp, mask, mask2, mode, pre_assume=pre)
     base = list(r.assumptions)
     # proof obligations collected during execution: panics, unchecked indices
     for ob in r.obligations:
@@ -89,6 +168,8 @@ def check_shape(E, k, L, w, mp, mask, mask2=None, mode="f64", eps=None):
     EPS = VF.const(E.consts["EPS"])
     for i in range(L):
         out = r.outputs[i]
+        if out is None:
+            break          # the callback panics here on every path; already reported through its obligation
         if k.pick is not None:
             out = out.items[k.pick]
         if k.two:
@@ -99,6 +180,10 @@ def check_shape(E, k, L, w, mp, mask, mask2=None, mode="f64", eps=None):
             wx, wy = window_valid(xs, mask, i, w), None
             n = len(wx)
         cases = []       # (extra assumptions, reference)
+        guard = []
+        if k.guard_on is not None and n >= max(need, 1):
+            g = k.guard_on(wx, wy)
+            guard = [f_cmp("Gt", g.f, VF.const(0))]
         if n < need:
             cases.append(([], None))
         else:
@@ -122,6 +207,7 @@ def check_shape(E, k, L, w, mp, mask, mask2=None, mode="f64", eps=None):
         # the sqrt symbols introduced by the oracle live in r.ex.assumptions too
         base = list(r.ex.assumptions)
         for extra, ref in cases:
+            extra = extra + guard
             if ref is None:
                 qs = [(smt.not_(out.nan), "output is non-null where null is required")]
             else:
